@@ -36,6 +36,10 @@ pub struct Ctx {
     pub tier: Tier,
     pub seed: u64,
     pub child: bool,
+    /// lean run (the unoptimised `dbg` profile): only the cheap spaces of a property are explored
+    pub lean: bool,
+    /// cold-start probe child: a fresh process whose threads all make their FIRST call into the crate at the same moment
+    pub probe: bool,
     /// Some((k, n)): this process is shard k of n of a sharded single-threaded history space and runs nothing else
     pub shard: Option<(usize, usize)>,
 }
@@ -49,6 +53,7 @@ pub fn spawn_shards(ctx: &Ctx, rep: &mut Report, n: usize) {
         let out = std::env::temp_dir().join(format!("ckc-mc-shard-{}-{}-{}.json", ctx.id, std::process::id(), k));
         let child = std::process::Command::new(&exe)
             .args(["run", &ctx.id, ctx.tier.name(), "--child", out.to_str().unwrap(), "--shard", &k.to_string(), &n.to_string()])
+            .args(if ctx.lean { vec!["--lean"] } else { vec![] })
             .env("CKC_MC_QUIET", "1")
             .spawn()
             .unwrap_or_else(|_| monitor::machinery_fail("cannot spawn a shard process"));
@@ -88,6 +93,8 @@ pub struct Prop {
     pub judge: Judge,
     /// does the tier also run in the overflow-checked profile?
     pub both_profiles: fn(Tier) -> bool,
+    /// thorough tier: also a lean run with the crate compiled unoptimised (the default `cargo test` code generation)
+    pub dbg_lean: bool,
     /// does the statement promise a normal return (so that a hang is a violation and not a machinery error)?
     pub promises_return: bool,
 }
@@ -101,26 +108,26 @@ fn in_thorough(t: Tier) -> bool {
 
 pub fn registry() -> Vec<Prop> {
     vec![
-        Prop { id: "C01", run: c01::run, judge: c01::judge, both_profiles: in_thorough, promises_return: true },
-        Prop { id: "C02", run: c02::run_c02, judge: c02::judge, both_profiles: in_thorough, promises_return: true },
-        Prop { id: "C03", run: c02::run_c03, judge: c02::judge, both_profiles: in_thorough, promises_return: true },
-        Prop { id: "C04", run: c04::run, judge: c04::judge, both_profiles: in_thorough, promises_return: true },
-        Prop { id: "C05", run: c05::run, judge: c05::judge, both_profiles: always, promises_return: true },
-        Prop { id: "C06", run: c06::run, judge: c06::judge, both_profiles: in_thorough, promises_return: true },
-        Prop { id: "C07", run: c07::run, judge: c07::judge, both_profiles: in_thorough, promises_return: true },
-        Prop { id: "C08", run: c08::run, judge: c08::judge, both_profiles: in_thorough, promises_return: true },
-        Prop { id: "C09", run: c09::run, judge: c09::judge, both_profiles: in_thorough, promises_return: true },
-        Prop { id: "C10", run: c10::run, judge: c10::judge, both_profiles: in_thorough, promises_return: true },
-        Prop { id: "C11", run: c11::run, judge: c11::judge, both_profiles: in_thorough, promises_return: true },
-        Prop { id: "C12", run: c12::run, judge: c12::judge, both_profiles: in_thorough, promises_return: true },
-        Prop { id: "C13", run: c13::run, judge: c13::judge, both_profiles: in_thorough, promises_return: true },
-        Prop { id: "C14", run: c14::run, judge: c14::judge, both_profiles: in_thorough, promises_return: true },
-        Prop { id: "C15", run: c15::run, judge: c15::judge, both_profiles: in_thorough, promises_return: true },
-        Prop { id: "C16", run: c16::run, judge: c16::judge, both_profiles: in_thorough, promises_return: true },
-        Prop { id: "C17", run: c17::run, judge: c17::judge, both_profiles: always, promises_return: true },
-        Prop { id: "C18", run: c18::run, judge: c18::judge, both_profiles: in_thorough, promises_return: true },
-        Prop { id: "C19", run: c19::run, judge: c19::judge, both_profiles: in_thorough, promises_return: true },
-        Prop { id: "C20", run: c20::run, judge: c20::judge, both_profiles: in_thorough, promises_return: true },
+        Prop { id: "C01", run: c01::run, judge: c01::judge, both_profiles: in_thorough, dbg_lean: true, promises_return: true },
+        Prop { id: "C02", run: c02::run_c02, judge: c02::judge, both_profiles: in_thorough, dbg_lean: true, promises_return: true },
+        Prop { id: "C03", run: c02::run_c03, judge: c02::judge, both_profiles: in_thorough, dbg_lean: true, promises_return: true },
+        Prop { id: "C04", run: c04::run, judge: c04::judge, both_profiles: in_thorough, dbg_lean: false, promises_return: true },
+        Prop { id: "C05", run: c05::run, judge: c05::judge, both_profiles: always, dbg_lean: true, promises_return: true },
+        Prop { id: "C06", run: c06::run, judge: c06::judge, both_profiles: in_thorough, dbg_lean: false, promises_return: true },
+        Prop { id: "C07", run: c07::run, judge: c07::judge, both_profiles: in_thorough, dbg_lean: false, promises_return: true },
+        Prop { id: "C08", run: c08::run, judge: c08::judge, both_profiles: in_thorough, dbg_lean: false, promises_return: true },
+        Prop { id: "C09", run: c09::run, judge: c09::judge, both_profiles: in_thorough, dbg_lean: true, promises_return: true },
+        Prop { id: "C10", run: c10::run, judge: c10::judge, both_profiles: in_thorough, dbg_lean: false, promises_return: true },
+        Prop { id: "C11", run: c11::run, judge: c11::judge, both_profiles: in_thorough, dbg_lean: true, promises_return: true },
+        Prop { id: "C12", run: c12::run, judge: c12::judge, both_profiles: in_thorough, dbg_lean: false, promises_return: true },
+        Prop { id: "C13", run: c13::run, judge: c13::judge, both_profiles: in_thorough, dbg_lean: false, promises_return: true },
+        Prop { id: "C14", run: c14::run, judge: c14::judge, both_profiles: in_thorough, dbg_lean: false, promises_return: true },
+        Prop { id: "C15", run: c15::run, judge: c15::judge, both_profiles: in_thorough, dbg_lean: false, promises_return: true },
+        Prop { id: "C16", run: c16::run, judge: c16::judge, both_profiles: in_thorough, dbg_lean: false, promises_return: true },
+        Prop { id: "C17", run: c17::run, judge: c17::judge, both_profiles: always, dbg_lean: false, promises_return: true },
+        Prop { id: "C18", run: c18::run, judge: c18::judge, both_profiles: in_thorough, dbg_lean: false, promises_return: true },
+        Prop { id: "C19", run: c19::run, judge: c19::judge, both_profiles: in_thorough, dbg_lean: false, promises_return: true },
+        Prop { id: "C20", run: c20::run, judge: c20::judge, both_profiles: in_thorough, dbg_lean: false, promises_return: true },
     ]
 }
 
@@ -165,6 +172,64 @@ pub fn confirm_mismatch(judge: Judge, case: Case) -> Violation {
             profile: profile_name().to_string(),
             trace: Vec::new(),
         },
+    }
+}
+
+/// Cold-start probe (NOT exhaustive, a supplementary schedule sample): `rounds` fresh processes, in each of which 16
+/// threads wait at a barrier and then make their first calls into the crate simultaneously. Process-wide state that is
+/// initialised lazily on first use (a table filled by "the first caller") is only observable in that window. The
+/// crate has no threads, locks or atomics of its own, so there is nothing for a controlled scheduler to intercept; this
+/// probe can only FIND such a race (a wrong answer observed is a real violation), it cannot exclude one.
+pub fn cold_start_probe(ctx: &Ctx, rep: &mut Report, rounds: usize) {
+    let exe = std::env::current_exe().unwrap_or_else(|_| monitor::machinery_fail("cannot locate the harness binary"));
+    let mut probes = 0u64;
+    for k in 0..rounds {
+        let out = std::env::temp_dir().join(format!("ckc-mc-probe-{}-{}-{}.json", ctx.id, std::process::id(), k));
+        let st = std::process::Command::new(&exe).args(["run", &ctx.id, ctx.tier.name(), "--child", out.to_str().unwrap(), "--probe"]).env("CKC_MC_QUIET", "1").status();
+        match st {
+            Ok(s) if s.success() => {
+                let text = std::fs::read_to_string(&out).unwrap_or_else(|_| monitor::machinery_fail("probe report missing"));
+                let _ = std::fs::remove_file(&out);
+                let j = Json::parse(&text).unwrap_or_else(|e| monitor::machinery_fail(&format!("probe report unreadable: {}", e)));
+                probes += j.get("evaluations").and_then(|x| x.as_u64()).unwrap_or(0);
+                rep.viol_count += j.get("viol_count").and_then(|x| x.as_u64()).unwrap_or(0);
+                if let Some(vs) = j.get("viols").and_then(|v| v.as_arr()) {
+                    for v in vs {
+                        if let Ok(v) = Violation::from_json(v) {
+                            rep.push_violation(v);
+                        }
+                    }
+                }
+            }
+            Ok(s) if s.code() == Some(1) => std::process::exit(1),
+            _ => monitor::machinery_fail("a cold-start probe process failed"),
+        }
+    }
+    rep.extra.push(("cold_start_probe".into(), Json::obj().with("fresh_processes", Json::U(rounds as u64)).with("threads_per_process", Json::U(16)).with("first_calls_checked", Json::U(probes)).with("note", Json::s("schedule SAMPLE, not exhaustive and not part of the deciding enumeration: threads released from a barrier make their first calls into the crate at the same time"))));
+}
+
+/// Body of one probe process: runs `first_call(i)` on 16 threads released together; returns the violations found.
+pub fn probe_body(rep: &mut Report, n_items: usize, first_call: &(dyn Fn(usize) -> Option<Violation> + Sync)) {
+    let barrier = std::sync::Barrier::new(16);
+    let found: std::sync::Mutex<Vec<Violation>> = std::sync::Mutex::new(Vec::new());
+    std::thread::scope(|s| {
+        for t in 0..16usize {
+            let (barrier, found) = (&barrier, &found);
+            s.spawn(move || {
+                barrier.wait();
+                let mut i = t;
+                while i < n_items {
+                    if let Some(v) = first_call(i) {
+                        found.lock().unwrap().push(v);
+                    }
+                    i += 16;
+                }
+            });
+        }
+    });
+    rep.evaluations += n_items as u64;
+    for v in found.into_inner().unwrap() {
+        rep.violate(v);
     }
 }
 
@@ -229,29 +294,42 @@ pub fn history2(rep: &mut Report, judge: Judge, items: &[Case]) {
     let kind = monitor::kind_id("history2");
     let accs = crate::engine::enumerate::par_parts(1, |_| {
         let mut acc = crate::engine::evidence::Acc::new(1);
-        for a in items {
-            for b in items {
-                monitor::beat(kind, &[a.words.first().copied().unwrap_or(0), b.words.first().copied().unwrap_or(0)]);
-                acc.cases += 1;
-                acc.calls += 2;
-                acc.nontrivial += (a != b) as u64;
-                let _ = judge(a);
-                if let Verdict::Violated { .. } = judge(b) {
-                    match confirm(judge, b.clone()) {
-                        Some(v) => acc.violate(v), // b is wrong on its own as well
-                        None => {
-                            let sc = seq_case(a, b);
-                            let first = judge_seq(judge, &sc);
-                            let v = match first {
-                                Verdict::Violated { class, expected, observed } => Violation { class, case: sc, expected, observed, profile: profile_name().to_string(), trace: vec![] },
-                                _ => Violation { class: format!("history:{}:not-reproducible", b.kind), case: sc, expected: "the same answer whenever the same two calls are made".into(), observed: "wrong once in sequence, right when the sequence was repeated".into(), profile: profile_name().to_string(), trace: vec![] },
-                            };
-                            acc.violate(v);
+        // the pair pass runs in both logging configurations (Off, then Trace; the overflow-checked profile is always Trace)
+        let was = monitor::trace_logging();
+        for cfg_trace in [was, true] {
+            monitor::set_trace_logging(cfg_trace);
+            for a in items {
+                for b in items {
+                    monitor::beat(kind, &[a.words.first().copied().unwrap_or(0), b.words.first().copied().unwrap_or(0)]);
+                    acc.cases += 1;
+                    acc.calls += 2;
+                    acc.nontrivial += (a != b) as u64;
+                    let _ = judge(a);
+                    if let Verdict::Violated { .. } = judge(b) {
+                        let cfg = if cfg_trace { " [with a Trace-level logger installed]" } else { "" };
+                        match confirm(judge, b.clone()) {
+                            Some(mut v) => {
+                                v.observed.push_str(cfg);
+                                acc.violate(v) // b is wrong on its own as well
+                            }
+                            None => {
+                                let sc = seq_case(a, b);
+                                let first = judge_seq(judge, &sc);
+                                let v = match first {
+                                    Verdict::Violated { class, expected, observed } => Violation { class, case: sc, expected, observed: format!("{}{}", observed, cfg), profile: profile_name().to_string(), trace: vec![] },
+                                    _ => Violation { class: format!("history:{}:not-reproducible", b.kind), case: sc, expected: "the same answer whenever the same two calls are made".into(), observed: format!("wrong once in sequence, right when the sequence was repeated{}", cfg), profile: profile_name().to_string(), trace: vec![] },
+                                };
+                                acc.violate(v);
+                            }
                         }
                     }
                 }
             }
+            if was {
+                break;
+            }
         }
+        monitor::set_trace_logging(was);
         // depth 3 over a spread of at most 24 of the items: a two-entry memo needs three calls to go wrong
         let step = (items.len() / 24).max(1);
         let few: Vec<&Case> = items.iter().step_by(step).take(24).collect();
